@@ -90,7 +90,8 @@ CHECKS = {
                           "segment-end and near-collision pivots",
                 text="every sampled annotator explained as a wrapped translation by one pivot; pivot separation on long-enough "
                      "continua with >= 3 annotators; integrality in integer mode.",
-                note="known finding: integer truncation can bring two pivots up to 1 closer than allowed (recorded, not repaired)"),
+                note="reconstruction tolerance 1e-9 relative; 'long enough' is the sufficient condition length > k*avg_unit_length + 2; "
+                     "integer pivots may lie up to 1 below bound_inf (truncation of a value drawn within the bounds)"),
     "C19": dict(level="exploration", ref="3 C19",
                 technique=f"{SIM}: RNG seam - corpus validity and per-perturbation confinement on every trial, alternate trials "
                           "under an adversary returning legal extremes",
